@@ -295,9 +295,9 @@ impl C10 {
     /// 3 read sizes (1 byte, a full chunk, exactly one record per read); two more styles keep a steady look-ahead
     /// of more than three chunks.
     fn case_raw(&mut self, idx: u64, _rng: &mut Rng, rep: &mut Report) {
-        let style = idx % 6;
-        let chunk = [64usize, 4096, 16384, 65536][((idx / 6) % 4) as usize];
-        let read_mode = (idx / 24) % 3;
+        let style = idx % 7;
+        let chunk = [64usize, 4096, 16384, 65536][((idx / 7) % 4) as usize];
+        let read_mode = (idx / 28) % 3;
         // styles 4 and 5 keep a steady look-ahead of more than three chunks in front of the cursor
         let window = 3 * chunk + 16;
         let target = self.mib << 20;
@@ -396,6 +396,22 @@ impl C10 {
                             break;
                         }
                     }
+                    6 => {
+                        // like style 0, but the consumer sets the chunk size again before every record
+                        r.set_chunk_size(chunk);
+                        let b = r.request(16);
+                        if b.len() < 16 {
+                            if !b.is_empty() {
+                                bad = format!("partial record of {} bytes at the end", b.len());
+                            }
+                            break;
+                        }
+                        if b[0] != b'R' || b[15] != b'\n' {
+                            bad = format!("record {} damaged", n);
+                            break;
+                        }
+                        r.advance(16);
+                    }
                     4 => {
                         let b = r.request(window);
                         if b.len() < 16 {
@@ -462,6 +478,7 @@ impl C10 {
                 "length_prefixed:request_byte+request+advance",
                 "steady_lookahead_of_3_chunks:request+advance",
                 "steady_lookahead_of_3_chunks:request_byte_at_offset+advance",
+                "set_chunk_size_before_every_record:request+advance",
             ][style as usize]
         ));
         rep.count("items", records);
